@@ -35,25 +35,43 @@ fn status_byte(e: Option<ExtendedMarketStatus>) -> u8 {
     }
 }
 
+/// The argument the conversion passed to (the stub of) `find_divisor_decimals`, and whether it
+/// was called: the divisor exponent must be derived from the largest value, `ask`.
+static mut FDD_ARG: [u64; 3] = [0; 3];
+static mut FDD_CALLED: bool = false;
+fn record(n: &U192) {
+    unsafe {
+        FDD_ARG = *n.as_limbs();
+        FDD_CALLED = true;
+    }
+}
+
 pub(crate) fn k0(_n: &U192) -> u8 {
+    record(_n);
     0
 }
 pub(crate) fn k1(_n: &U192) -> u8 {
+    record(_n);
     1
 }
 pub(crate) fn k2(_n: &U192) -> u8 {
+    record(_n);
     2
 }
 pub(crate) fn k3(_n: &U192) -> u8 {
+    record(_n);
     3
 }
 pub(crate) fn k4(_n: &U192) -> u8 {
+    record(_n);
     4
 }
 pub(crate) fn k18(_n: &U192) -> u8 {
+    record(_n);
     18
 }
 pub(crate) fn k19(_n: &U192) -> u8 {
+    record(_n);
     19
 }
 
@@ -186,12 +204,18 @@ pub(crate) fn convert(k: u32, shape: [L; 3], track: bool) {
             kani::assume(bound(k - 1).lt(a));
         }
     }
+    let ask_limbs = *au.as_limbs();
     let report = Report::verif_new(obs, lut, (sp, pu), (sb, bu), (sa, au), ext);
     let obs_ns = obs as u128 * 1_000_000_000;
     let late = matches!(lut, Some(l) if l as u128 >= obs_ns + 1_000_000_000);
     let mut w_age = !track;
     match PriceFeedPrice::from_chainlink_report(&report) {
         Ok(fp) => {
+            // the common divisor must be chosen for the largest of the three values (ask)
+            unsafe {
+                assert!(FDD_CALLED && FDD_ARG[0] == ask_limbs[0] && FDD_ARG[1] == ask_limbs[1] && FDD_ARG[2] == ask_limbs[2],
+                    "C28: the divisor exponent was not derived from ask");
+            }
             assert!(sp && sb && sa, "C28: negative bid/price/ask accepted");
             assert!(b.le(p) && p.le(a), "C28: misordered bid/price/ask accepted");
             assert!(!late, "C28: last update later than the observation by >= 1s accepted");
